@@ -299,7 +299,7 @@ func C19(c *Ctx) {
 			for top.Parent() != nil {
 				top = top.Parent()
 			}
-			r.Check(allowed[top.Name()], "R19.4", shortFn(fn)+": ready-counter writer", c.P.Pos(in.Pos()), "one of the three bookkeeping functions", "the ready counter is written outside promote / batch / commit bookkeeping")
+			r.Check(allowed[top.Name()] || c.onlyCalledFrom(top, func(f *ssa.Function) bool { return allowed[f.Name()] }), "R19.4", shortFn(fn)+": ready-counter writer", c.P.Pos(in.Pos()), "one of the three bookkeeping functions", "the ready counter is written outside promote / batch / commit bookkeeping")
 			st := in.(*ssa.Store)
 			switch top.Name() {
 			case "processDirtyAccount":
